@@ -1368,7 +1368,10 @@ theorem foldl_visitTtl_eq (now shard : Nat) (l : List (Nat × Nat)) : ∀ (t : A
     l.foldl (visitTtl now shard) t =
       t.filter (fun q => !(l.any (fun p => decide (now > p.2) && decide ((shard, p.1) = q.1)))) := by
   induction l with
-  | nil => intro t; simp [List.filter_true]
+  | nil =>
+    intro t
+    simp only [List.foldl_nil, List.any_nil, Bool.not_false]
+    exact (List.filter_eq_self.mpr (fun _ _ => rfl)).symm
   | cons p r ih =>
     intro t
     rw [List.foldl_cons, ih]
@@ -1384,6 +1387,88 @@ theorem foldl_visitTtl_eq (now shard : Nat) (l : List (Nat × Nat)) : ∀ (t : A
       apply List.filter_congr
       intro q _
       simp [hd]
+
+/-- the entries `(id, expiry)` of the shard the sweeper works on, in the order of the expiry index -/
+def shardEntries (g : State) : List (Nat × Nat) :=
+  (g.ttl.filter (fun p => p.1.1 == secsOf g.now % g.cfg.shards)).map (fun p => (p.1.2, p.2))
+
+theorem find?_self_of_nodup : ∀ {E : List (Nat × Nat)}, (E.map Prod.fst).Nodup → ∀ p ∈ E,
+    E.find? (fun q => q.1 == p.1) = some p
+  | [], _, p, hp => by cases hp
+  | q :: r, hnd, p, hp => by
+    simp only [List.map_cons, List.nodup_cons] at hnd
+    rcases List.mem_cons.mp hp with h | h
+    · subst h; simp [List.find?]
+    · have hne : ¬ q.1 = p.1 := fun e => hnd.1 (e ▸ List.mem_map.mpr ⟨p, h, rfl⟩)
+      rw [List.find?_cons_of_neg (by simpa using hne)]
+      exact find?_self_of_nodup hnd.2 p h
+
+theorem filterMap_find?_self (E : List (Nat × Nat)) : ∀ (l : List (Nat × Nat)),
+    (∀ p ∈ l, E.find? (fun q => q.1 == p.1) = some p) →
+    (l.map Prod.fst).filterMap (fun id => E.find? (fun q => q.1 == id)) = l
+  | [], _ => rfl
+  | p :: r, h => by
+    simp only [List.map_cons, List.filterMap_cons, h p (List.mem_cons_self ..)]
+    rw [filterMap_find?_self E r (fun q hq => h q (List.mem_cons_of_mem _ hq))]
+
+/-- every valid visiting order visits a permutation of the entries -/
+theorem visitOrder_perm {E : List (Nat × Nat)} {vs : List Nat} (hv : ValidVisits E vs)
+    (hnd : (E.map Prod.fst).Nodup) : (visitOrder E vs).Perm E := by
+  have h1 : vs.Perm (E.map Prod.fst) := (List.perm_ext_iff_of_nodup hv.1 hnd).mpr hv.2
+  have h2 := h1.filterMap (fun id => E.find? (fun q => q.1 == id))
+  rw [filterMap_find?_self E E (find?_self_of_nodup hnd)] at h2
+  exact h2
+
+theorem shardEntries_nodup (g : State) (hnd : AMap.NoDup g.ttl) : ((shardEntries g).map Prod.fst).Nodup := by
+  unfold shardEntries
+  generalize secsOf g.now % g.cfg.shards = shard
+  unfold AMap.NoDup at hnd
+  generalize g.ttl = t at hnd
+  induction t with
+  | nil => simp
+  | cons p r ih =>
+    simp only [List.map_cons, List.nodup_cons] at hnd
+    by_cases hp : p.1.1 = shard
+    · rw [List.filter_cons_of_pos (by simpa using hp)]
+      simp only [List.map_cons, List.nodup_cons]
+      refine ⟨?_, ih hnd.2⟩
+      intro hmem
+      simp only [List.map_map, List.mem_map, List.mem_filter, beq_iff_eq, Function.comp] at hmem
+      obtain ⟨q, ⟨hq, hqs⟩, hqid⟩ := hmem
+      apply hnd.1
+      have : q.1 = p.1 := Prod.ext (hqs.trans hp.symm) hqid
+      exact List.mem_map.mpr ⟨q, hq, this⟩
+    · rw [List.filter_cons_of_neg (by simpa using hp)]
+      exact ih hnd.2
+
+theorem evictId_keep (g : State) (id : Nat) : (evictId g id).sweeperKeep = g.sweeperKeep := by
+  rw [evictId_eq]; split <;> rfl
+
+theorem foldl_evictId_keep (l : List Nat) : ∀ (g : State), (l.foldl evictId g).sweeperKeep = g.sweeperKeep := by
+  induction l with
+  | nil => intro g; rfl
+  | cons a r ih => intro g; rw [List.foldl_cons, ih, evictId_keep]
+
+/-- **The outcome of the evictions does not depend on the order** (`sweepEntries_perm`): evictions of different ids
+    commute (`evictId_comm`), so any two orders of the same ids give the same shared state. -/
+theorem sweepEntries_perm {l1 l2 : List Nat} (h : l1.Perm l2) (g : State) :
+    l1.foldl evictId g = l2.foldl evictId g :=
+  h.foldl_eq' (fun x _ y _ z => evictId_comm z x y) g
+
+theorem dueIds_shardEntries (now shard : Nat) (t : AMap (Nat × Nat) Nat) :
+    dueIds now ((t.filter (fun p => p.1.1 == shard)).map (fun p => (p.1.2, p.2))) =
+      (t.filter (fun p => p.1.1 == shard && decide (now > p.2))).map (fun p => p.1.2) := by
+  unfold dueIds
+  induction t with
+  | nil => rfl
+  | cons p r ih =>
+    by_cases hs : p.1.1 = shard
+    · by_cases hd : now > p.2
+      · rw [List.filter_cons_of_pos (by simpa using hs), List.filter_cons_of_pos (by simp [hs, hd]),
+          List.map_cons, List.filter_cons_of_pos (by simpa using hd), List.map_cons, List.map_cons, ih]
+      · rw [List.filter_cons_of_pos (by simpa using hs), List.filter_cons_of_neg (by simp [hs, hd]),
+          List.map_cons, List.filter_cons_of_neg (by simpa using hd), ih]
+    · rw [List.filter_cons_of_neg (by simpa using hs), List.filter_cons_of_neg (by simp [hs]), ih]
 
 end B
 end Cached
